@@ -315,7 +315,8 @@ impl FixedMethod {
                         B_OI_KAR => self.buffer.push(B_OI),
                         B_O_KAR => self.buffer.push(B_O),
                         B_OU_KAR => self.buffer.push(B_OU),
-                        _ => (),
+                        // There is no independent vowel for it, so don't lose the key.
+                        _ => self.buffer.push(character),
                     }
                 } else if config.get_fixed_automatic_chandra() && rmc == B_CHANDRA {
                     // Automatic Fix of Chandra Position
@@ -365,7 +366,8 @@ impl FixedMethod {
                             self.buffer.pop();
                             self.buffer.push(B_OU);
                         }
-                        _ => (),
+                        // There is no independent vowel for it, so don't lose the key.
+                        _ => self.buffer.push(character),
                     }
                 } else if config.get_fixed_traditional_kar() && rmc.is_pure_consonant() {
                     // Traditional Kar Joining
